@@ -25,7 +25,8 @@ def one(c):
     d = "/var/tmp/seed/rev-" + c
     os.makedirs(d, exist_ok=True)
     files = [f for f in subprocess.check_output(["git", "-C", "/repo", "diff", "--name-only", c + "~1", c]).decode().split() if not f.endswith("_test.go")]
-    patch = subprocess.check_output(["git", "-C", "/repo", "diff", c, c + "~1", "--"] + files)
+    hand = "/verif/seeded/reverts/%s.diff" % c          # hand-made where later commits touched the same lines
+    patch = open(hand, "rb").read() if os.path.exists(hand) else subprocess.check_output(["git", "-C", "/repo", "diff", c, c + "~1", "--"] + files)
     open(os.path.join(d, "patch.diff"), "wb").write(patch)
     p = subprocess.run(["python3", "/verif/tools/try_seed.py", d] + byc[c]["props"], stdout=subprocess.PIPE, stderr=subprocess.STDOUT,
                        timeout=7200, env=dict(os.environ, VERIF_SEED=seed))
